@@ -109,6 +109,8 @@ cdef class ExtendedZOrderNNPS(ZOrderNNPS):
 
     cdef inline int _h_mask_exact(self, int* x, int* y, int* z) noexcept nogil
 
+    cdef double _cell_hmax(self, uint64_t key)
+
     cdef int _neighbor_boxes_func(self, int i, int j, int k,
             int* current_key_to_idx, uint32_t* current_pids,
             uint32_t* current_cids, double* current_hmax, int num_particles,
